@@ -318,6 +318,63 @@ def doc_edit(doc, e, n):
     return None
 
 
+def part_warm(part, short, w):
+    """reads that may leave cached references inside the part object"""
+    if w == "root":
+        part.root  # noqa: B018
+    elif w == "body" and short == "content":
+        part.body  # noqa: B018
+    elif w == "getters":
+        if short == "meta":
+            part.get_meta_body()
+            part.get_title(), part.get_subject(), part.get_description(), part.get_keywords(), part.get_user_defined_metadata()
+        elif short == "styles":
+            part.get_styles(), part.get_master_pages()
+        elif short == "content":
+            part.get_styles()
+        elif short == "manifest":
+            part.get_paths(), part.get_path_medias()
+    elif w == "edit":
+        part_edit(part, short, 1, "WARMTOKq")
+    elif w == "serialize":
+        part.serialize()
+
+
+def part_edit(part, short, ek, tok):
+    from odfdo import Element, Paragraph
+
+    if short == "meta":
+        k = ek % 8
+        if k == 0:
+            part.set_title(tok)
+        elif k == 1:
+            part.set_subject(tok)
+        elif k == 2:
+            part.set_description(tok)
+        elif k == 3:
+            part.set_initial_creator(tok)
+        elif k == 4:
+            part.set_keywords(tok)
+        elif k == 5:
+            part.set_user_defined_metadata(tok, tok)
+        elif k == 6:
+            part.creator = tok
+        else:
+            part.set_generator(tok)
+    elif short == "content":
+        if ek % 2:
+            part.body.append(Paragraph(tok))
+        else:
+            part.root.get_element("//office:automatic-styles").append(
+                Element.from_tag(f'<style:style style:name="{tok}" style:family="paragraph"/>'))
+    elif short == "styles":
+        part.root.get_element("//office:styles").append(Element.from_tag(f'<style:style style:name="{tok}" style:family="paragraph"/>'))
+    elif short == "manifest":
+        part.add_full_path(tok, "text/plain")
+    else:
+        part.root.append(Element.from_tag(f'<config:config-item-set config:name="{tok}"/>'))
+
+
 def run_document(case, ctx):
     scratch = scratch_dir(f"C10-{ctx.shard}")
     try:
@@ -354,24 +411,32 @@ def run_document(case, ctx):
                               f"{e['k']} on the {'original' if side == 'o' else 'clone'} changed {changed} of the other document", case)
                     snaps[side] = doc_snapshot(twins[side])
             elif which == "xmlpart":
-                from odfdo import Paragraph
-
-                part = doc.content
-                part.root  # noqa: B018
+                short = case.get("part", "content")
+                part = doc.get_part(short)
+                for w in case.get("pwarm", ["root"]):
+                    part_warm(part, short, w)
                 s0 = part.serialize()
                 c = part.clone
-                ctx.check(part.serialize() == s0, ("C10", "XmlPart.clone", "modifies-original"), "", case)
-                ctx.check(odfread.c14n(c.serialize()) == odfread.c14n(s0), ("C10", "XmlPart.clone", "not-equal-at-birth"),
-                          "clone.serialize() differs from the original (unsaved edits lost?)", case)
-                ctx.check(odfread.c14n(odfread.wrap_ns(c.root.serialize()))[:0] == b"" and
-                          len(c.root.get_elements("//text:p")) == len(part.root.get_elements("//text:p")),
-                          ("C10", "XmlPart.clone", "root-vs-serialize"), "clone.root and original disagree on the paragraphs", case)
-                c.body.append(Paragraph("ONLYCLONE"))
-                ctx.check(part.serialize() == s0, ("C10", "XmlPart", "operation-visible-on-twin"), "editing the clone's tree changed the original part", case)
-                ctx.check(b"ONLYCLONE" in c.serialize(), ("C10", "XmlPart.clone", "root-vs-serialize"), "edit of clone.root not in clone.serialize()", case)
-                s1 = c.serialize()
-                part.body.append(Paragraph("ONLYORIG"))
-                ctx.check(c.serialize() == s1, ("C10", "XmlPart", "operation-visible-on-twin"), "editing the original changed the clone", case)
+                ctx.check(part.serialize() == s0, ("C10", "XmlPart.clone", "modifies-original", short), "", case)
+                ctx.check(odfread.c14n(c.serialize()) == odfread.c14n(s0), ("C10", "XmlPart.clone", "not-equal-at-birth", short),
+                          f"clone of {short}: serialize() differs from the original (unsaved edits lost?)", case)
+                ctx.check(type(c) is type(part), ("C10", "XmlPart.clone", "class", short), f"clone of {type(part).__name__} is {type(c).__name__}", case)
+                ctx.check(len(c.root.get_elements("//*")) == len(part.root.get_elements("//*")),
+                          ("C10", "XmlPart.clone", "root-vs-serialize", short), "clone.root and original disagree on the element count", case)
+                twins = {"o": part, "c": c}
+                snaps = {"o": part.serialize(), "c": c.serialize()}
+                for n, (side, ek) in enumerate(case.get("pedits", [("c", 0), ("o", 0)])):
+                    other = "c" if side == "o" else "o"
+                    tok = f"PARTTOK{n}x"
+                    part_edit(twins[side], short, ek, tok)
+                    ctx.check(twins[other].serialize() == snaps[other], ("C10", "XmlPart", "operation-visible-on-twin", short),
+                              f"edit #{ek} of the {'original' if side == 'o' else 'clone'} {short} part changed the other one", case)
+                    now = twins[side].serialize()
+                    ctx.check(tok.encode() in now, ("C10", "XmlPart", "edit-lost", short),
+                              f"edit #{ek} ({tok}) of the {'original' if side == 'o' else 'clone'} {short} part is not in its own serialisation", case)
+                    ctx.check(tok.encode() in twins[side].root.serialize().encode(), ("C10", "XmlPart.clone", "root-vs-serialize", short),
+                              f"edit #{ek} ({tok}) not visible through .root of the edited part", case)
+                    snaps[side] = now
             else:  # container
                 cont = doc.container
                 names0 = sorted(cont.get_parts())
@@ -457,6 +522,9 @@ def run_shard(ctx):
             for how in ("path", "bytesio", "folder"):
                 srcs.append({"kind": "sample", "name": p.name, "how": how})
     dedit = st.fixed_dictionaries({"k": st.sampled_from(["paragraph", "meta", "add_file", "set_part", "del_part", "read", "save"])})
-    dcases = st.fixed_dictionaries({"kind": st.just("document"), "source": st.sampled_from(srcs), "what": st.sampled_from(["document", "document", "xmlpart", "container"]),
-                                    "pre": st.lists(dedit, max_size=3), "edits": st.lists(st.tuples(side, dedit), min_size=1, max_size=4)})
+    dcases = st.fixed_dictionaries({"kind": st.just("document"), "source": st.sampled_from(srcs), "what": st.sampled_from(["document", "document", "xmlpart", "xmlpart", "container"]),
+                                    "pre": st.lists(dedit, max_size=3), "edits": st.lists(st.tuples(side, dedit), min_size=1, max_size=4),
+                                    "part": st.sampled_from(["content", "styles", "meta", "meta", "settings", "manifest"]),
+                                    "pwarm": st.lists(st.sampled_from(["root", "body", "getters", "edit", "serialize"]), max_size=3),
+                                    "pedits": st.lists(st.tuples(side, st.integers(0, 7)), min_size=1, max_size=5)})
     ctx.run_given(mk(dcases), ctx.budget(1600, 20000), salt=4)
